@@ -37,10 +37,15 @@ structure Stat (K : SCtx) (k : Ctx) (sub : Bool) : Prop where
   depth : K.tl.length ≤ k.depth
   top : K.top = true → sub = false
 
+/-- The EXIT trap: none in a subshell (traps are not inherited and `trap … EXIT` is only supported
+    in the main shell), and always a simple action. -/
+def CsubOk (sub : Bool) (s : St) : Prop :=
+  (sub = true → s.callbackExit = .nil) ∧ simpleTrap s.callbackExit = true
+
 /-- Facts about a runner state at a position. -/
 structure Dyn (K : SCtx) (k : Ctx) (sub : Bool) (s : St) : Prop where
   cerr : s.callbackErr = .nil
-  csub : sub = true → s.callbackExit = .nil
+  csub : CsubOk sub s
   fok : FuncsOk K.e s.funcs
   ht : s.handlingTrap = false
   eign : K.e = true → s.noErrExit = k.ign
@@ -94,7 +99,7 @@ def Post (K : SCtx) (k : Ctx) (sub : Bool) (le q : Prop) (s s' : St) : Flow → 
       (s'.exit.exiting = true → s'.errexit = true ∧ s'.noErrExit = false ∧ s'.exit.code ≠ 0)
   | .exit, e' =>
     s'.exit.exiting = true ∧ s'.exit.returning = false ∧ e'.status = s'.exit.code ∧
-      e'.out = s'.out ∧ e'.trapExit = s'.callbackExit ∧ (sub = true → s'.callbackExit = .nil) ∧
+      e'.out = s'.out ∧ e'.trapExit = s'.callbackExit ∧ CsubOk sub s' ∧
       s'.handlingTrap = false ∧ s'.callbackErr = .nil ∧ NoPending s'
 
 /-- Both sides run out of fuel together, or both return related results. -/
